@@ -37,9 +37,10 @@ FN = [
     (("accnone",), ("i",), "i"),
     (("punique", 2, "parity", "first"), ("i",), "p"),
     (("sinkf", "rec3"), ("i", "p"), "none"),
+    (("sinktxt",), ("i", "p"), "none"),
 ]
 USER_FN = ("map", "starmap", "filter", "acc", "unique", "partition", "punique", "sinkf", "remove", "mapargs", "filterargs", "starmapargs",
-           "accws", "accrsws", "accnone")
+           "accws", "accrsws", "accnone", "sinktxt")
 
 
 def programs(thorough):
@@ -275,7 +276,8 @@ def factory(key):
     cls = FailAsync if mode.startswith("async") else FailThreaded
     prefail = (2, key[4]) if len(key) > 4 else None
     nomd = len(key) > 5 and key[5] == "nomd"
-    return lambda: cls(prop="C04", nodes=(node,), kind=kind, mode="await", n=n, fail=0 if prefail else 1, prefail=prefail, nomd=nomd)
+    nofail = bool(prefail) or "failkey" in node        # (failkey: the only failure is the key function's own)
+    return lambda: cls(prop="C04", nodes=(node,), kind=kind, mode="await", n=n, fail=0 if nofail else 1, prefail=prefail, nomd=nomd)
 
 
 def sched_plan(ctx):
@@ -285,6 +287,10 @@ def sched_plan(ctx):
         for kind in ("future", "native", "gen") if (T or node in ("direct", "map")) else ("future",):
             jobs.append((("async", node, kind, 3 if T else 2), 1))
             jobs.append((("threaded", node, kind, 2), 1 if node != "buffer:1" else 0))
+    # a key function that raises inside a timing node's update()
+    for keep in ("first", "last"):
+        jobs.append((("async", "timed_window_unique:1:failkey:%s" % keep, "future", 3), 0))
+        jobs.append((("async", "timed_window_unique:1:failkey:%s" % keep, "sync", 3), 1))
     for node in ("direct", "map"):
         for how in ("future", "gen"):
             jobs.append((("async-prefail", node, "future", 3, how), 1))
